@@ -6,7 +6,9 @@
 #include "common.hpp"
 
 #include <functional>
+#include <limits>
 #include <set>
+#include <string>
 #include <tuple>
 #include <type_traits>
 #include <utility>
